@@ -42,6 +42,11 @@ theorem connected_from_of_run {g : Dag} {v : Nat} (h : ∀ u ∈ g.nodes, u ∈ 
     ∀ u ∈ g.nodes, g.UReach v u :=
   fun u hu => visit_sound v _ v _ (.refl v) (by simp) u (h u hu)
 
+/-- the same for `Connected` (every pair of nodes) -/
+theorem connected_of_runs {g : Dag} (h : ∀ u ∈ g.nodes, ∀ w ∈ g.nodes, w ∈ (g.dagRun u).vis) :
+    g.Connected :=
+  fun u hu w hw => visit_sound u _ u _ (.refl u) (by simp) w (h u hu w hw)
+
 /-! ## dag_iterator -/
 
 /-- Edge membership, for every start node of every well-formed DAG: the pairs yielded are exactly
@@ -74,6 +79,9 @@ theorem dag_iter_edges {g : Dag} (wf : DWF g) {v : Nat} (hv : v ∈ g.nodes)
 theorem dag_iter_edges_connected {g : Dag} (wf : DWF g) (hc : g.Connected) {v : Nat}
     (hv : v ∈ g.nodes) : (g.dagIter v).Perm g.edges :=
   dag_iter_edges wf hv (fun u hu => hc v hv u hu)
+
+example : (threeParents.dagIter 3).Perm threeParents.edges :=
+  dag_iter_edges_connected threeParents_wf (connected_of_runs (by decide)) (by decide)
 
 -- non-vacuity: diamond from the sink, the three-parent DAG from the child, the docstring DAG
 example : (diamond.dagIter 3).Perm diamond.edges :=
